@@ -11,11 +11,11 @@ from . import harness
 from . import peers
 from . import shim
 from . import transports as T
-from .engine import Violation, gen_costs, collect_info, gen_eintr
+from .engine import Violation, gen_costs, collect_info, gen_eintr, gen_intr
 from .harness import EOF, TIMEOUT
 from .kernel import PtyMaster, PtySlave, ECHO, ICANON, ISIG, OPOST, IEXTEN, default_termios
 from .sendlog import SeqLog
-from .world import SimHang, HarnessError
+from .world import SimHang, HarnessError, SimInterrupt
 
 
 def gen_keys(rng, esc, allbytes):
@@ -125,6 +125,9 @@ def generate(rng):
         scn['esc_text'] = rng.choice([u'\u20ac', u'\u0100', u'\U0001f600'])
         scn['esc_how'] = 'absent'
     gen_eintr(rng, scn)
+    # Ctrl-C does not reach a raw-mode session as a signal, but a SIGTERM/SIGALRM handler of the application that raises does:
+    # interact() is abandoned while it waits, and the user's terminal must be back in the mode it was found in
+    gen_intr(rng, scn, p=0.05, nmax=10)
     return scn
 
 
@@ -346,7 +349,14 @@ def run(scn, prop=None):
         res = 'ret'
         exc = None
         try:
-            child.interact(escape_character=escape_character, **kwargs)
+            w.intr_armed = True
+            try:
+                child.interact(escape_character=escape_character, **kwargs)
+            finally:
+                w.intr_armed = False
+        except SimInterrupt as e:
+            res, exc = 'INTR', e
+            r.w.probe('interact_abandoned_from_outside')
         except SimHang as e:
             res, exc = 'HANG', e
         except HarnessError:
